@@ -325,8 +325,40 @@ pub fn run_c03(tier: Tier) -> i32 {
             acc
         })
         .reduce(Acc::default, Acc::merge);
-    let acc = acc.merge(acc_multi);
-    let cov = proto_coverage(&acc, "every abstract response of the bounded grammar (tier A: all field lists of <=2 fields over 3 keys x 12 values, and <=1 field x 8 binary payloads, binary first/last; tier B: all lists of <=2/3 frames over 6 representative frames, every error after every partial output; tier C: all sequences of <=2/3 responses over 8 representatives) x every segmentation in the stated sets x {blocking, async}; plus every sequence of <=2/3 large binary components (sizes 10..17000 straddling the 4 KiB buffer and its doublings) as separate responses and as one list, under fill-the-buffer reads, network-like chunk sizes and cuts around every component boundary; non-trivial = streams with several responses, a list/error form, a binary part, or a value that mimics a protocol keyword", json!({"all_compositions_upto_len": all_upto, "upto_2_cuts_upto_len": two_upto, "upto_3_cuts_upto_len": three_upto, "long_streams": "every single cut, pairs near structural boundaries, chunk sizes 1,2,3,7,4095,4096,4097"}));
+    // long histories of distinct field names, the second response read in small pieces with the
+    // receive abandoned (and a command sent) at each of its first reads
+    let histories: Vec<(usize, usize)> = [200usize, 240, 250, 254, 255, 256, 257, 300, 510, 520].into_iter().flat_map(|p| [(p, 12usize), (p, 30)]).collect();
+    let acc_hist = histories
+        .par_iter()
+        .map(|(prior, fresh)| {
+            let mut acc = Acc::default();
+            let ws = many_names_history(*prior, *fresh);
+            let (stream, bounds) = encode_items(&ws, BinPos::Last);
+            let expected: Vec<AResponse> = ws.iter().map(|w| w.expected()).collect();
+            acc.streams += 1;
+            acc.nontrivial += 1;
+            let expect = Expect { responses: expected, ends: vec![Terminal::Clean], alt: None };
+            for piece in [24usize, 56, 120] {
+                // first response in one read, then pieces
+                let mut cuts = vec![bounds[0]];
+                let mut p = bounds[0] + piece;
+                while p < stream.len() {
+                    cuts.push(p);
+                    p += piece;
+                }
+                for flavor in [Flavor::Sync, Flavor::Async] {
+                    check_session("C03", &stream, &cuts, flavor, 0, EndAnswer::Eof, &expect, false, &mut acc, &default_sig("C03"));
+                }
+                for cm in [0b10u64, 0b100, 0b1000, 0b110, 0b1010, 0b11110] {
+                    check_session("C03", &stream, &cuts, Flavor::Async, cm << 32, EndAnswer::Eof, &expect, false, &mut acc, &default_sig("C03"));
+                    check_session("C03", &stream, &cuts, Flavor::Async, (cm << 32) | SEND_AFTER_CANCEL, EndAnswer::Eof, &expect, false, &mut acc, &default_sig("C03"));
+                }
+            }
+            acc
+        })
+        .reduce(Acc::default, Acc::merge);
+    let acc = acc.merge(acc_multi).merge(acc_hist);
+    let cov = proto_coverage(&acc, "every abstract response of the bounded grammar (tier A: all field lists of <=2 fields over 3 keys x 12 values, and <=1 field x 8 binary payloads, binary first/last; tier B: all lists of <=2/3 frames over 6 representative frames, every error after every partial output; tier C: all sequences of <=2/3 responses over 8 representatives) x every segmentation in the stated sets x {blocking, async}; plus every sequence of <=2/3 large binary components (sizes 10..17000 straddling the 4 KiB buffer and its doublings) as separate responses and as one list, under fill-the-buffer reads, network-like chunk sizes and cuts around every component boundary; connection histories of 200..520 distinct field names followed by a list response read in 24/56/120-byte pieces with the receive abandoned (and a command sent) at its first reads; non-trivial = streams with several responses, a list/error form, a binary part, or a value that mimics a protocol keyword", json!({"all_compositions_upto_len": all_upto, "upto_2_cuts_upto_len": two_upto, "upto_3_cuts_upto_len": three_upto, "long_streams": "every single cut, pairs near structural boundaries, chunk sizes 1,2,3,7,4095,4096,4097"}));
     finish(&ctx, cov, acc.viol)
 }
 
@@ -374,6 +406,16 @@ fn corruptions(stream: &[u8], subs: &[u8]) -> Vec<Vec<u8>> {
         }
     }
     out
+}
+
+/// One text line longer than a mebibyte (and than eight doublings of the receive buffer) between
+/// two ordinary responses: whatever limit or growth policy applies must not depend on how the
+/// line is cut into reads.
+pub fn huge_line_stream() -> Vec<u8> {
+    let mut s = b"a: before\nOK\nFoo_bar: ".to_vec();
+    s.extend(std::iter::repeat(b"0123456789abcdef".iter().copied()).flatten().take(1_200_000));
+    s.extend_from_slice(b"\na: tail\nOK\na: after\nOK\n");
+    s
 }
 
 fn c02_check_stream(stream: &[u8], sets: &[Vec<usize>], pendings: &[u64], acc: &mut Acc) {
@@ -443,8 +485,10 @@ pub fn run_c02(tier: Tier) -> i32 {
         .par_iter()
         .map(|(name, ws)| {
             let mut acc = Acc::default();
-            let (s, _) = encode_items(ws, BinPos::Last);
-            let sets = long_segsets(&s, thorough);
+            let (s, bounds) = encode_items(ws, BinPos::Last);
+            // (the exact-buffer-size streams are about reads that fill the buffer to its last byte:
+            // fill-the-buffer reads, chunk sizes and cuts around boundaries and doublings, not every cut)
+            let sets = if name.contains("exactly") && !thorough { multi_segsets(&s, &bounds) } else { long_segsets(&s, thorough) };
             c02_check_stream(&s, &sets, &[0b1, 0b100], &mut acc);
             acc.nontrivial += 1;
             acc.samples.push(json!({"long_stream": name, "bytes": s.len(), "segmentations": sets.len()}));
@@ -466,11 +510,20 @@ pub fn run_c02(tier: Tier) -> i32 {
             acc
         })
         .reduce(Acc::default, Acc::merge);
-    let mut acc = acc.merge(acc_long).merge(acc_multi);
+    // a text line of 1.2 MB
+    let mut acc_huge = Acc::default();
+    {
+        let huge = huge_line_stream();
+        let n = huge.len();
+        let sets: Vec<Vec<usize>> = vec![vec![], chunked(n, 65536), chunked(n, 11680), vec![1_100_000], vec![1_048_600, 1_150_000], vec![24, n - 30], vec![4096 + 23], vec![1 << 20]];
+        c02_check_stream(&huge, &sets, &[], &mut acc_huge);
+        acc_huge.nontrivial += 1;
+    }
+    let mut acc = acc.merge(acc_long).merge(acc_multi).merge(acc_huge);
     acc.samples.push(json!({"well_formed_streams": wf, "truncated_and_corrupted_streams": streams.len() - wf, "long_streams": longs.len()}));
     let cov = proto_coverage(
         &acc,
-        "byte streams = well-formed grammar streams, every truncation and single-byte substitution/deletion/insertion of 8 two-response streams, long responses with boundaries at 4096/8192/16384 +-1 and binary payloads of 4000..8300 bytes, and every sequence of <=2/3 large binary components (10..17000 bytes) as separate responses and as one list; x every segmentation of the stated sets x {blocking, async} x Pending answers; each stream is distinct and counts as non-trivial (all have >= 2 segmentations)",
+        "byte streams = well-formed grammar streams, every truncation and single-byte substitution/deletion/insertion of 8 two-response streams, long responses with boundaries at 4096/8192/16384 +-1 and binary payloads of 4000..8300 bytes, and every sequence of <=2/3 large binary components (10..17000 bytes) as separate responses and as one list, and one text line of 1.2 MB between ordinary responses (8 segmentations); x every segmentation of the stated sets x {blocking, async} x Pending answers; each stream is distinct and counts as non-trivial (all have >= 2 segmentations)",
         json!({"all_compositions_upto_len": all_upto, "upto_2_cuts_upto_len": two_upto, "upto_3_cuts_upto_len": three_upto, "pending_masks": pend, "long_streams": "every (quick: every third) single cut, +-3 around every structural boundary, pairs near boundaries, chunk sizes 1,2,3,7,4095,4096,4097"}),
     );
     finish(&ctx, cov, acc.viol)
@@ -601,7 +654,48 @@ pub fn run_c10(tier: Tier) -> i32 {
             acc
         })
         .reduce(Acc::default, Acc::merge);
-    let acc = acc.merge(macc);
+    // long histories of distinct field names: the stream is cut after every complete line of the
+    // list response that follows them, which is read in pieces with the receive abandoned on the way
+    let hacc = [(250usize, 30usize), (256, 30), (510, 30)]
+        .par_iter()
+        .map(|(prior, fresh)| {
+            let mut acc = Acc::default();
+            let ws = many_names_history(*prior, *fresh);
+            let (stream, bounds) = encode_items(&ws, BinPos::Last);
+            let expected: Vec<AResponse> = ws.iter().map(|w| w.expected()).collect();
+            acc.streams += 1;
+            let line_ends: Vec<usize> = (bounds[0]..bounds[1]).filter(|&i| stream[i] == b'\n').map(|i| i + 1).collect();
+            for &p in &line_ends {
+                let prefix = &stream[..p];
+                let k = bounds.iter().filter(|&&b| b <= p).count();
+                let on_boundary = bounds.contains(&p);
+                let expect = Expect { responses: expected[..k].to_vec(), ends: vec![if on_boundary { Terminal::Clean } else { Terminal::UnexpectedEof }], alt: None };
+                acc.nontrivial += 1;
+                let sigf = |s: &Session| match (&s.end, on_boundary) {
+                    (Terminal::Clean, false) => "C10/unclean-eof-reported-clean".to_string(),
+                    (Terminal::UnexpectedEof, true) => "C10/clean-eof-reported-unclean".to_string(),
+                    _ => "C10/mismatch".to_string(),
+                };
+                for piece in [56usize, 120] {
+                    let mut cuts = vec![bounds[0]];
+                    let mut q = bounds[0] + piece;
+                    while q < p {
+                        cuts.push(q);
+                        q += piece;
+                    }
+                    for cm in [0u64, 0b100, 0b1000, 0b1100, 0b11100] {
+                        check_session("C10", prefix, &cuts, Flavor::Async, cm << 32, EndAnswer::Eof, &expect, false, &mut acc, &sigf);
+                        if cm != 0 {
+                            check_session("C10", prefix, &cuts, Flavor::Async, (cm << 32) | SEND_AFTER_CANCEL, EndAnswer::Eof, &expect, false, &mut acc, &sigf);
+                        }
+                    }
+                    check_session("C10", prefix, &cuts, Flavor::Sync, 0, EndAnswer::Eof, &expect, false, &mut acc, &sigf);
+                }
+            }
+            acc
+        })
+        .reduce(Acc::default, Acc::merge);
+    let acc = acc.merge(macc).merge(hacc);
     // greetings: a proper prefix of a valid greeting is an unexpected EOF
     let mut gacc = Acc::default();
     for g in [&b"OK MPD 0.23.5\n"[..], b"OK MPD x\n"] {
@@ -641,12 +735,16 @@ fn c09_expect(stream: &[u8]) -> Expect {
         Expect { responses: d.responses, ends, alt: None }
     };
     let mut strict = of(ref_decode(stream));
-    // field names outside the library's present alphabet: rejecting the line and delivering it
-    // verbatim are both right (consistently for the whole stream)
-    let lenient = of(crate::mpdref::wire::ref_decode_with(stream, true));
-    if lenient.responses != strict.responses || lenient.ends != strict.ends {
-        strict.alt = Some(Box::new(lenient));
+    // field names outside the library's present alphabet: rejecting such a line and delivering it
+    // verbatim are both right, line by line (the outcome is decided by the first one rejected)
+    let (_, unspecified) = crate::mpdref::wire::ref_decode_with(stream, usize::MAX);
+    let mut chain: Option<Box<Expect>> = None;
+    for k in (1..=unspecified.min(6)).rev() {
+        let mut e = of(crate::mpdref::wire::ref_decode_with(stream, k).0);
+        e.alt = chain.take();
+        chain = Some(Box::new(e));
     }
+    strict.alt = chain;
     strict
 }
 
@@ -700,6 +798,10 @@ pub fn numeric_edges() -> Vec<Vec<u8>> {
             out.push(format!("ACK [{n}@{m}] {{}} msg\n").into_bytes());
         }
         out.push(format!("list_OK\nACK [{n}@1] {{play}} x\nOK\n").into_bytes());
+    }
+    // lengths in non-canonical decimal spelling, with exactly that many payload bytes
+    for s in ["binary: 003\nabc\nOK\n", "binary: 0005\nhello\nOK\n", "binary: 00\n\nOK\n", "a: b\nbinary: 01\nx\nOK\nc: d\nOK\n", "binary: 010\n0123456789\nlist_OK\nbinary: 1\ny\nlist_OK\nOK\n"] {
+        out.push(s.as_bytes().to_vec());
     }
     out
 }
